@@ -64,6 +64,8 @@ type naRecord struct {
 	FusedErr     string           `json:"fusedErr"`
 	Fused        abs.Seq[naAlert] `json:"fused"`
 	WithoutFirst abs.Seq[naAlert] `json:"withoutFirst"`
+	HasDeleted   bool             `json:"hasDeleted"`
+	Deleted      abs.Seq[naAlert] `json:"deleted"`
 }
 
 func idx(pool []string, s string) int {
@@ -225,6 +227,24 @@ func nyctalertsDriver(args []string) (*Summary, error) {
 					return
 				}
 				rec.WithoutFirst = append(rec.WithoutFirst, projectNA(msg, rt.Projector{Zone: time.UTC}.Project(raw), raw).Alerts...)
+			}()
+			// the first alert flagged is_deleted: a parser may ignore the flag or leave the entity out - entirely
+			func() {
+				defer func() {
+					rt.DeletedEntity = 0
+					if r := recover(); r != nil {
+						rec.FusedErr = fmt.Sprint("panic: ", r)
+					}
+				}()
+				rt.DeletedEntity = 1
+				raw, err := gtfs.ParseRealtime(rt.Bytes(msg, order), &gtfs.ParseRealtimeOptions{Extension: nyctalerts.Extension(toOpts(*c.Opts))})
+				rt.DeletedEntity = 0
+				if err != nil {
+					rec.FusedErr = "error: " + err.Error()
+					return
+				}
+				rec.HasDeleted = true
+				rec.Deleted = append(abs.Seq[naAlert]{}, projectNA(msg, rt.Projector{Zone: time.UTC}.Project(raw), raw).Alerts...)
 			}()
 			if strings.HasPrefix(rec.FusedErr, "panic:") {
 				s.Crashes = append(s.Crashes, map[string]string{"case": id, "what": "ParseRealtime (entity with two payloads) " + rec.FusedErr})
